@@ -1,0 +1,23 @@
+//go:build verif
+// +build verif
+
+// Verification hook H3c (add-only, compiled only with -tags verif): builds the real
+// JoinedGroupStorage on top of a caller-supplied core.GroupChain (the node takes the process-global
+// core.GetGroupChain()), so that a harness can register a test group's member share public keys
+// through the storage's own JoinGroup / AddMemberSignPk. No behaviour of existing code paths changes.
+package access
+
+import (
+	"com.tuntun.rangers/node/src/common"
+	"com.tuntun.rangers/node/src/core"
+	"com.tuntun.rangers/node/src/middleware/log"
+)
+
+// VerifC15NewJoinedGroupStorage is NewJoinedGroupStorage with an injected group chain. It also sets
+// the package logger the way NewMinerPoolReader does (JoinGroup logs through it).
+func VerifC15NewJoinedGroupStorage(gc core.GroupChain) *JoinedGroupStorage {
+	if logger == nil {
+		logger = log.GetLoggerByIndex(log.AccessLogConfig, common.GlobalConf.GetString("instance", "index", ""))
+	}
+	return &JoinedGroupStorage{groupChain: gc}
+}
